@@ -595,6 +595,12 @@ def _check(ctx, case):
             # base, so the rest of this chain cannot be judged.
             ctx.note("chain-stopped-on-zero-length-dask-chunks")
             break
+        if lazy and s.arr.ndim == 0 and step > 0:
+            # a fully reduced lazy object is a 0-d dask array; dask 2026.8 turns `python_complex / 0-d array` into a task
+            # that yields a bare python complex, after which stack / expand_dims / indexing fail inside dask
+            # (reproduced without abTEM).  Trusted base: the rest of the chain is not judged.
+            ctx.note("chain-stopped-on-0d-dask-array")
+            break
 
         # ------------------------------------------------------------------ expected refusals
         if name == "reduce-base":
